@@ -14,6 +14,21 @@ Theorem C20_set_correct : forall ps s, is_match ps s = Some (existsb (fun p => w
 Proof. exact is_match_correct. Qed.
 Print Assumptions C20_set_correct.
 
+(* the semantics read as a relation - '*' any possibly empty sequence (M_star: t ++ s), '?' or the character itself for
+   one character (M_char) - is what the loop decides; and what a policy author relies on: "*" matches every string, a
+   pattern without wildcard characters matches itself only *)
+From S3V Require Import proofs.PatternSpec.
+Theorem C20_match_is_the_relation : forall p s, match_pattern p s = Some true <-> Matches p s.
+Proof. exact match_pattern_iff_Matches. Qed.
+Print Assumptions C20_match_is_the_relation.
+Theorem C20_star_matches_everything : forall s, match_pattern [star] s = Some true.
+Proof. exact match_star_everything. Qed.
+Print Assumptions C20_star_matches_everything.
+Theorem C20_literal_pattern_matches_itself_only : forall p s, forallb literal p = true ->
+  (match_pattern p s = Some true <-> s = p).
+Proof. exact match_literal_itself_only. Qed.
+Print Assumptions C20_literal_pattern_matches_itself_only.
+
 (* a pattern set is refused exactly when one of its patterns is empty - wherever it stands in the set and whatever stands before it -
    and an accepted set consists of exactly the patterns given (none dropped, none added) *)
 Theorem C20_empty_pattern_refused_exactly : forall ps,
